@@ -141,7 +141,8 @@ def run_one(funcs, o, tier):
             names = [check[1]] + (check[3][:1] if not inside else [])
         missing = [x for x in names if x in counts and counts[x] == 0 and x not in spec.get("absent_ok_events", [])]
         if missing and check[0] != "never":
-            verdict = "inconclusive"; reason = "event pattern(s) %s match nothing reachable from %s" % (missing, roots[0])
+            if verdict != "violated":
+                verdict = "inconclusive"; reason = "event pattern(s) %s match nothing reachable from %s" % (missing, roots[0])
             cd["result"] = "stale"
             detail["checks"].append(cd)
             continue
@@ -149,7 +150,8 @@ def run_one(funcs, o, tier):
         if check[0] == "edge_requires":
             cd["edges_matched"] = notes.get("edges_matched", 0)
             if not bad:
-                verdict = "inconclusive"; reason = "edge_requires: no matching comparison edge (pattern stale or operands unresolved)"
+                if verdict != "violated":
+                    verdict = "inconclusive"; reason = "edge_requires: no matching comparison edge (pattern stale or operands unresolved)"
                 cd["result"] = "stale"
                 detail["checks"].append(cd)
                 continue
@@ -190,7 +192,7 @@ def run_one(funcs, o, tier):
         cd["z3"] = res; cd["z3_s"] = round(dt, 3); cd["bad_states"] = len(bad)
         expect_sat = check[0] == "reach"
         if res == "nobad":
-            if expect_sat:
+            if expect_sat and verdict != "violated":
                 verdict = "inconclusive"; reason = "reach target absent"
             cd["result"] = "no bad state constructible"
         elif res in ("sat", "unsat"):
@@ -199,7 +201,8 @@ def run_one(funcs, o, tier):
             queries += 1; solver_s += dt2
             cd["cvc5"] = r2
             if r2 in ("sat", "unsat") and r2 != res:
-                verdict = "inconclusive"; reason = "z3 and cvc5 disagree on check %d" % ci
+                if verdict != "violated":
+                    verdict = "inconclusive"; reason = "z3 and cvc5 disagree on check %d" % ci
             elif (res == "sat") != expect_sat:
                 if expect_sat:
                     verdict = "inconclusive" if verdict != "violated" else verdict
@@ -211,7 +214,8 @@ def run_one(funcs, o, tier):
                     failed.append({"class": "mirproto", "desc": "%s violated: %s" % (check[0], json.dumps(cd["check"])),
                                    "file": roots[0], "line": None, "path": steps})
         else:
-            verdict = "inconclusive"; reason = "solver: %s" % (str(out)[:200] if out else res)
+            if verdict != "violated":
+                verdict = "inconclusive"; reason = "solver: %s" % (str(out)[:200] if out else res)
         detail["checks"].append(cd)
     rec.update(verdict=verdict, reason=reason, queries=queries, solver_s=round(solver_s, 3), detail=detail,
                witnessed=witnessed and verdict == "discharged", failed=failed,
